@@ -274,35 +274,51 @@ func init() {
 			m.run(hist)
 			return
 		}
-		full := statespace.Model{NOps: len(a.rules) + 1, Run: m.run}
-		// the core alphabet (the first nCore rules + "new list") is explored one level deeper
-		core := statespace.Model{NOps: a.nCore + 1, Run: func(h []int) statespace.Outcome {
-			hh := make([]int, len(h))
-			for i, k := range h {
-				hh[i] = k
-				if k == a.nCore {
-					hh[i] = len(a.rules)
+		wide := statespace.Model{NOps: len(a.rules) + 1, Run: m.run}
+		// prefix(n): the first n rules + "new list"
+		prefix := func(n int) statespace.Model {
+			return statespace.Model{NOps: n + 1, Run: func(h []int) statespace.Outcome {
+				hh := make([]int, len(h))
+				for i, k := range h {
+					hh[i] = k
+					if k == n {
+						hh[i] = len(a.rules)
+					}
 				}
+				o := m.run(hh)
+				if o.Enabled != nil {
+					en := make([]bool, n+1)
+					copy(en, o.Enabled[:n])
+					en[n] = o.Enabled[len(a.rules)]
+					o.Enabled = en
+				}
+				return o
+			}}
+		}
+		// three tiers: the core alphabet one level deeper than the middle one, the
+		// whole alphabet (rules that only need short histories: equal-hash texts,
+		// case twins, a rule longer than the scanner's buffer) one level less deep
+		nMid := len(a.rules)
+		for i, r := range a.rules {
+			if r == a.tA {
+				nMid = i
 			}
-			o := m.run(hh)
-			if o.Enabled != nil {
-				en := make([]bool, a.nCore+1)
-				copy(en, o.Enabled[:a.nCore])
-				en[a.nCore] = o.Enabled[len(a.rules)]
-				o.Enabled = en
-			}
-			return o
-		}}
+		}
+		full := prefix(nMid)
+		core := prefix(a.nCore)
 		depth, guard := 3, 2
 		if c.Thorough() {
 			depth, guard = 4, 3
 		}
-		g := statespace.BFS(full, guard, false, c.Workers, c.Deadline)
+		g := statespace.BFS(wide, guard, false, c.Workers, c.Deadline)
 		s := statespace.BFS(full, depth, true, c.Workers, c.Deadline)
 		s2 := statespace.BFS(core, depth+1, true, c.Workers, c.Deadline)
-		s.States += s2.States
-		s.Transitions += s2.Transitions
-		s.DeadlineHit = s.DeadlineHit || s2.DeadlineHit
+		s3 := statespace.BFS(wide, depth-1, true, c.Workers, c.Deadline)
+		s.States += s2.States + s3.States
+		s.Transitions += s2.Transitions + s3.Transitions
+		s.DeadlineHit = s.DeadlineHit || s2.DeadlineHit || s3.DeadlineHit
+		c.Run.Set("middle_alphabet", int64(nMid+1))
+		c.Run.Set("whole_alphabet_depth_bound", int64(depth-1))
 		c.Run.Set("core_alphabet", int64(a.nCore+1))
 		c.Run.Set("core_depth_bound", int64(depth+1))
 		c.Run.Set("core_states_per_depth", s2.PerDepth)
